@@ -35,17 +35,31 @@ META = {
     "replay": True,
 }
 
-TARGETS = ["Saturated", "StaleOwner", "HistoryEvictHeld", "PubDroppedInFlight", "OverflowPartial"]
+TARGETS = ["Saturated", "StaleOwner", "HistoryEvictHeld", "PubDroppedInFlight", "OverflowPartial", "CqFull",
+           "ChunksExhausted", "ExpiredDiscard"]
 NEED_EVENTS = ["loan:ok", "loan:ExceedsMaxLoans", "probe", "send", "recv:some", "drop_sample", "drop_loan", "drop_sub",
-               "drop_pub", "update_pub"]
+               "drop_pub", "update_pub", "occupy", "update_pub:ConnectionFailure", "send_begin", "bp", "bp_ret:retry",
+               "send_end:ok"]
 
 
 def mc_instances(quick):
     Q = ps.qos
     inst = [("K_1x1r_overflow", Q(maxpubs=1, maxsubs=1, bufmax=2, hist=1, borrow=1, loan=1, overflow=True),
-             [1], [1, 2], [2], [0, 1], 4, "SysView")]
+             [1], [1, 2], [2], [0, 1], 4, "SysView"),
+            # split form of send: the receiver returns everything between the sender's reclaim and its push;
+            # CqFits with the completion queue capacity measured on the running code
+            ("N_1x1_split", Q(maxpubs=1, maxsubs=1, bufmax=1, hist=0, borrow=1, loan=1, overflow=False, strategy="retry_discard"),
+             [1], [1], [1], [0], 3, "SysView", ps.inst_opts(split=True))]
     if not quick:
         inst += [
+            ("N_1x2_split", Q(maxpubs=1, maxsubs=2, bufmax=1, hist=0, borrow=1, loan=2, overflow=False, strategy="retry_discard"),
+             [1], [1, 2], [1], [0], 4, "SysView", ps.inst_opts(split=True)),
+            ("N_1x1_concurrent", Q(maxpubs=1, maxsubs=1, bufmax=2, hist=1, borrow=2, loan=1, overflow=False, strategy="retry_discard"),
+             [1], [1], [1, 2], [1], 4, "SysView", ps.inst_opts(split=True, conc=True)),
+            ("F_1x2_faults", Q(maxpubs=1, maxsubs=2, bufmax=1, hist=1, borrow=1, loan=1, overflow=True),
+             [1], [1, 2, 3], [1], [0], 3, "SysView", ps.inst_opts(faults=True, degs=("fail",))),
+            ("X_3x1_expired", Q(maxpubs=2, maxsubs=1, bufmax=1, hist=0, borrow=1, loan=1, overflow=True, expbuf=1),
+             [1, 2, 3], [1], [1], [0], 3, "SysView"),
             ("K_1x1r_discard", Q(maxpubs=1, maxsubs=1, bufmax=1, hist=1, borrow=1, loan=1, overflow=False),
              [1], [1, 2], [1], [0, 1], 5, "SysView"),
             ("K_1x2_discard", Q(maxpubs=1, maxsubs=2, bufmax=1, hist=1, borrow=1, loan=1, overflow=False),
@@ -96,7 +110,8 @@ def run(ctx):
     ps.cleanup_shm()
     quick = ctx.quick
     ctx.assumptions += [
-        "sequential API histories; chunk = distinct payload address of one publisher",
+        "sequential API histories (calls from inside the unable-to-deliver handler included); chunk = distinct payload address of one publisher",
+        "completion queue capacity measured on the connection type of the service (send/receive/release until refused)",
         "a Sample outliving its Subscriber is outside the statement (not digest-checked)",
         "number of chunks N read from the running code (dynamic config number_of_samples)",
     ]
@@ -105,7 +120,9 @@ def run(ctx):
         (("u64", "ipc"), ("slice", "local"), ("slice", "ipc"), ("u64", "local"))
     trace, jobs = ps.roundtrip(ctx, PID, TARGETS, tail, NEED_EVENTS,
                                nsim=10 if quick else 120, depth=40 if quick else 60,
-                               ngen=12, steps=140 if quick else 80, variants=variants, scripted=ps.amplifier_jobs(variants))
+                               ngen=12, steps=140 if quick else 80, variants=variants,
+                               scripted=ps.amplifier_jobs(variants) + ps.fault_jobs(variants)[::2 if quick else 1]
+                               + ps.expired_jobs(variants) + ps.nested_jobs(variants))
     if not quick:
         ps.selftest(ctx, PID, trace, lambda r: r.get("a") == "probe" and r.get("cnt", 0) > 0,
                     lambda r: r.update(cnt=r["cnt"] - 1, cs=r["cs"][:-1]), "probe_count_changed")
